@@ -280,7 +280,8 @@ UNIT_FUNCS = ["rot2", "trot2", "rotx", "roty", "rotz", "trotx", "troty", "trotz"
               "xyt2tr", "SO2", "SE2", "SO3.Rx", "SO3.Ry", "SO3.Rz", "SE3.Rx", "SE3.Ry", "SE3.Rz", "SO3.RPY", "SE3.RPY", "SO3.Eul", "SE3.Eul",
               "SO3.AngVec", "SE3.AngVec", "UQ.Rx", "UQ.Ry", "UQ.Rz", "UQ.RPY", "UQ.Eul", "UQ.AngVec", "Twist3.Rx", "Twist3.Ry", "Twist3.Rz",
               "Twist3.exp", "Twist2.exp", "getunit", "getunit/list",
-              "tr2rpy", "tr2eul", "tr2angvec", "tr2xyt", "SO3.rpy", "SO3.eul", "SO3.angvec", "SE3.rpy", "UQ.rpy", "UQ.eul", "UQ.angvec", "SO2.theta"]
+              "tr2rpy", "tr2eul", "tr2angvec", "tr2xyt", "SO3.rpy", "SO3.eul", "SO3.angvec", "SE3.rpy", "UQ.rpy", "UQ.eul", "UQ.angvec", "SO2.theta",
+              "SO3[M].rpy", "SO3[M].eul", "SE3[M].rpy", "SE3[M].eul", "UQ[M].rpy", "UQ[M].eul", "SO2[M].theta"]
 ORDER_FUNCS = ["rpy2r", "rpy2tr", "tr2rpy", "SO3.RPY", "SE3.RPY", "UQ.RPY", "SO3.rpy", "UQ.rpy"]
 GOOD_ORDERS = ["zyx", "xyz", "yxz", "vehicle", "arm", "camera"]
 BAD_ORDERS = ["zxy", "ZYX", "xzy", "", "zyxx", "vehicel", "yzx", "rpy", None, 3]
@@ -299,7 +300,7 @@ def gen_options(tier):
         for o in GOOD_ORDERS:
             yield {"kind": "goodorder", "name": name, "order": o}
     for name in UNIT_FUNCS:
-        if name in ("tr2rpy", "tr2eul", "tr2angvec", "tr2xyt", "SO3.rpy", "SO3.eul", "SO3.angvec", "SE3.rpy", "UQ.rpy", "UQ.eul", "UQ.angvec", "SO2.theta"):
+        if name in RETURNING:
             continue                       # returned angles: the statement rejects unknown units for INPUT angles
         for u in BAD_UNITS:
             yield {"kind": "badunit", "name": name, "unit": u}
@@ -461,6 +462,14 @@ RETURNING = {
     "UQ.eul": lambda R, T2, unit, order: L.UnitQuaternion(R).eul(unit=unit),
     "UQ.angvec": lambda R, T2, unit, order: L.UnitQuaternion(R).angvec(unit=unit)[0],
     "SO2.theta": lambda R, T2, unit, order: L.SO2(T2[:2, :2].copy()).theta(unit=unit),
+    # multi-valued receivers
+    "SO3[M].rpy": lambda R, T2, unit, order: L.SO3([R, R.T.copy()]).rpy(unit=unit, order=order),
+    "SO3[M].eul": lambda R, T2, unit, order: L.SO3([R, R.T.copy()]).eul(unit=unit),
+    "SE3[M].rpy": lambda R, T2, unit, order: L.SE3([refs.rt(R, [1, 2, 3]), refs.rt(R.T, [0, 1, 0])]).rpy(unit=unit, order=order),
+    "SE3[M].eul": lambda R, T2, unit, order: L.SE3([refs.rt(R, [1, 2, 3]), refs.rt(R.T, [0, 1, 0])]).eul(unit=unit),
+    "UQ[M].rpy": lambda R, T2, unit, order: L.UnitQuaternion([L.SO3(R), L.SO3(R.T.copy())]).rpy(unit=unit, order=order),
+    "UQ[M].eul": lambda R, T2, unit, order: L.UnitQuaternion([L.SO3(R), L.SO3(R.T.copy())]).eul(unit=unit),
+    "SO2[M].theta": lambda R, T2, unit, order: np.asarray(L.SO2([T2[:2, :2].copy(), T2[:2, :2].T.copy()]).theta(unit=unit), dtype=float),
 }
 
 
